@@ -494,8 +494,27 @@ fn string_number(vm: &mut Vm) -> Result<VCell, Error> {
     };
     let s = pop_string(vm, "string->number")?;
     let s = s.borrow();
-    let s = s.as_str();
-    match Number::parse_with_exactness(s, Exactness::Unspecified, radix) {
+    let mut s = s.as_str();
+
+    // The prefixes a literal may carry (#e #i #b #o #d #x) mean the same in the string; a
+    // radix prefix overrides the radix operand.
+    let mut exactness = Exactness::Unspecified;
+    let mut radix = radix;
+    while let Some(rest) = s.strip_prefix('#') {
+        let mut chars = rest.chars();
+        match chars.next() {
+            Some('e') => exactness = Exactness::Exact,
+            Some('i') => exactness = Exactness::Inexact,
+            Some('b') => radix = 2,
+            Some('o') => radix = 8,
+            Some('d') => radix = 10,
+            Some('x') => radix = 16,
+            _ => break,
+        }
+        s = chars.as_str();
+    }
+
+    match Number::parse_with_exactness(s, exactness, radix) {
         Some(num) => Ok(VCell::Number(num)),
         None => Ok(false.into()),
     }
